@@ -256,6 +256,44 @@ func runC01(c *core.Ctx) {
 		}
 	}
 
+	// callers of an enqueue helper: a success return only on the accepted (nil error) side of the helper call
+	{
+		byFn := map[*ssa.Function][]acceptPoint{}
+		for _, a := range e.acceptPoints() {
+			if a.from != nil && a.errv != nil {
+				byFn[a.fn] = append(byFn[a.fn], a)
+			}
+		}
+		for fn, pts := range byFn {
+			c.FuncsSeen[p.QName(fn)] = true
+			core.AllInstrs(fn, func(in ssa.Instruction) {
+				ret, ok := in.(*ssa.Return)
+				if !ok {
+					return
+				}
+				if isNil, has := errResultIsNilConst(ret); !has || !isNil {
+					return
+				}
+				c.Instance("R2")
+				tgt, path := core.Search(nil, fn.Blocks[0], func(x ssa.Instruction) core.Action {
+					if x == ssa.Instruction(ret) {
+						return core.Target
+					}
+					return core.Continue
+				}, func(a, b *ssa.BasicBlock) bool {
+					for _, pt := range pts {
+						if isErrNilEdge(a, b, pt.errv) {
+							return false
+						}
+					}
+					return true
+				})
+				c.Check(tgt == nil, "R2", core.FName(fn)+"/success-only-after-enqueue", p.InstrPos(ret),
+					"success return is reachable only on the accepted side of the enqueue helper", "a success (nil error) return is reachable without the enqueue helper having accepted the payload", p.PathString(path, tgt)...)
+			})
+		}
+	}
+
 	// ---- R3
 	for _, E := range r.Enqueuers {
 		c.Instance("R3")
